@@ -32,8 +32,8 @@ CONSTANTS Geoms,       \* sequence of [name, cls, dims, edges, depth]
           Record,      \* keep the history (simulation / replay) or not (exhaustive)
           Bug          \* "none", or a named mutation of Impl used as a self-test of the model
 
-VARIABLES geom, lane, psi, outer, sitetags, form, depth, nrej, ok, hist
-vars == <<geom, lane, psi, outer, sitetags, form, depth, nrej, ok, hist>>
+VARIABLES geom, lane, psi, outer, sitetags, form, depth, nrej, ok, hist, pend
+vars == <<geom, lane, psi, outer, sitetags, form, depth, nrej, ok, hist, pend>>
 
 (* ---------------- small deterministic data ---------------- *)
 InitVec(D, s) == [i \in 1..D |-> <<((i * 7 + s * 3 + (i \div 3)) % 5) - 2, ((i * 3 + s + (i \div 2)) % 3) - 1>>]
@@ -234,7 +234,7 @@ Init ==
   /\ outer = OuterOf(geom)
   /\ sitetags = DOMAIN geom.dims
   /\ form = "struct"
-  /\ depth = 0 /\ nrej = 0 /\ ok = TRUE /\ hist = <<>>
+  /\ depth = 0 /\ nrej = 0 /\ ok = TRUE /\ hist = <<>> /\ pend = <<>>
 
 DepthBound == IF geom.depth > 0 THEN geom.depth ELSE MaxDepth
 Wide == depth < WideDepth
@@ -260,28 +260,37 @@ FamilyRoute(fam, w) ==
     [] fam = "oplazy"  -> R("op_lazy", "lazy")
     [] OTHER           -> R("gate", "True")
 
-\* One action per implementation family (coverage is reported per family).  The reference update and the
-\* family's transcription are evaluated once per (sites, gate, op, which) and shared by the family's routes.
-ApplyFam(fam) ==
+AcceptedRoutes(s, op, w) ==
+  {r \in Routes : /\ w \in Whiches(geom.cls, r)
+                  /\ Accepts(geom.cls, r.entry, r.mode, Len(s), PairAdjacent(geom.edges, s), form, op, w) = "yes"}
+
+\* Applying a gate is written as two steps so that TLC evaluates the exact arithmetic once per gate and not
+\* once per route:  Choose fixes (sites, G, op, which) and evaluates the reference update and the transcription
+\* of every implementation family that has an accepted route;  the Apply... steps (one action per family, so
+\* that coverage is reported per family) then take every accepted route.
+Choose ==
   \E s \in Sites, g \in Gids, op \in Ops, w \in {"site", "upper", "lower", "sandwich"} :
-    /\ depth < DepthBound
+    /\ pend = <<>> /\ depth < DepthBound
     /\ WhichOK(geom.cls, w)
-    /\ LET k   == Len(s)
-           G   == GateFor(SubDims(geom.dims, s), g)
-           adj == PairAdjacent(geom.edges, s)
-           ref == ApplyRef(G, geom.dims, s, psi, op, w)
-           imp == Impl(geom, psi, G, s, op, w, FamilyRoute(fam, w))
-       IN  \E r \in Routes :
-             /\ w \in Whiches(geom.cls, r)
-             /\ Family(r, k, w) = fam
-             /\ Accepts(geom.cls, r.entry, r.mode, k, adj, form, op, w) = "yes"
-             /\ psi' = ref
-             /\ outer' = outer /\ sitetags' = sitetags
-             /\ form' = FormAfter(form, r.entry, r.mode, k)
-             /\ ok' = (imp = ref)
-             /\ depth' = depth + 1 /\ nrej' = nrej /\ lane' = <<>>
-             /\ hist' = IF Record THEN Append(hist, Act("apply", r, s, G, op, w)) ELSE hist
-             /\ UNCHANGED geom
+    /\ LET G    == GateFor(SubDims(geom.dims, s), g)
+           fams == {Family(r, Len(s), w) : r \in AcceptedRoutes(s, op, w)}
+       IN  /\ fams # {}
+           /\ pend' = [sites |-> s, G |-> G, op |-> op, which |-> w,
+                        ref |-> ApplyRef(G, geom.dims, s, psi, op, w),
+                        imp |-> [f \in fams |-> Impl(geom, psi, G, s, op, w, FamilyRoute(f, w))]]
+    /\ UNCHANGED <<geom, lane, psi, outer, sitetags, form, depth, nrej, ok, hist>>
+
+ApplyFam(fam) ==
+  /\ pend # <<>>
+  /\ \E r \in AcceptedRoutes(pend.sites, pend.op, pend.which) :
+       /\ Family(r, Len(pend.sites), pend.which) = fam
+       /\ psi' = pend.ref
+       /\ outer' = outer /\ sitetags' = sitetags
+       /\ form' = FormAfter(form, r.entry, r.mode, Len(pend.sites))
+       /\ ok' = (pend.imp[fam] = pend.ref)
+       /\ depth' = depth + 1 /\ nrej' = nrej /\ lane' = <<>> /\ pend' = <<>>
+       /\ hist' = IF Record THEN Append(hist, Act("apply", r, pend.sites, pend.G, pend.op, pend.which)) ELSE hist
+       /\ UNCHANGED geom
 
 ApplyWired    == ApplyFam("wired")
 ApplySandwich == ApplyFam("sandwich")
@@ -292,16 +301,16 @@ ApplyOpLazy   == ApplyFam("oplazy")
 \* a combination the table refuses: quimb raises, nothing changes
 Reject ==
   \E r \in Routes, s \in Sites, op \in {"N"} : \E w \in Whiches(geom.cls, r) :
-     /\ depth < DepthBound /\ nrej < 1
+     /\ pend = <<>> /\ depth < DepthBound /\ nrej < 1
      /\ Accepts(geom.cls, r.entry, r.mode, Len(s), PairAdjacent(geom.edges, s), form, op, w) = "no"
      /\ ~(r.entry = "Tensor.gate")
      /\ nrej' = nrej + 1
      /\ hist' = IF Record THEN Append(hist, Act("reject", r, s, GateFor(SubDims(geom.dims, s), 1), op, w)) ELSE hist
-     /\ UNCHANGED <<geom, lane, psi, outer, sitetags, form, depth, ok>>
+     /\ UNCHANGED <<geom, lane, psi, outer, sitetags, form, depth, ok, pend>>
 
 \* the algebraic facts of the reference, for the lane's tuple (a terminal step of the exhaustive exploration)
 CheckFacts ==
-  /\ depth = 0 /\ lane # <<>> /\ nrej = 0 /\ ~Record
+  /\ depth = 0 /\ lane # <<>> /\ nrej = 0 /\ ~Record /\ pend = <<>>
   /\ ok' = /\ \A g \in WideGids, op \in {"N", "T", "H"} :
                  LET G == GateFor(SubDims(geom.dims, lane), g) IN
                  /\ FactPerm(OpVar(G, op), DenseDims(geom), lane, psi)
@@ -310,9 +319,9 @@ CheckFacts ==
                        (g = 1 => FactDef(G, geom, lane, psi, op, w))
             /\ (lane = <<1>> => FactProduct([geom EXCEPT !.dims = DenseDims(geom)], psi))
   /\ depth' = DepthBound
-  /\ UNCHANGED <<geom, lane, psi, outer, sitetags, form, nrej, hist>>
+  /\ UNCHANGED <<geom, lane, psi, outer, sitetags, form, nrej, hist, pend>>
 
-Next == ApplyWired \/ ApplySandwich \/ ApplySwapped \/ ApplySubMpo \/ ApplyOpLazy \/ Reject \/ CheckFacts
+Next == Choose \/ ApplyWired \/ ApplySandwich \/ ApplySwapped \/ ApplySubMpo \/ ApplyOpLazy \/ Reject \/ CheckFacts
 Spec == Init /\ [][Next]_vars
 
 (* ---------------- properties ---------------- *)
@@ -326,5 +335,5 @@ TypeOK == /\ Len(psi) = Size(DenseDims(geom))
           /\ form \in {"struct", "loose"}
 
 \* a complete behaviour is printed when it reaches the depth bound (simulation, Record = TRUE)
-EmitJson == (Record /\ depth = DepthBound) => PrintT(<<"QVJSON", ToJson(hist)>>)
+EmitJson == (Record /\ depth = DepthBound /\ pend = <<>>) => PrintT(<<"QVJSON", ToJson(hist)>>)
 =============================================================================
